@@ -297,7 +297,7 @@ def run(tier):
     for l in sw:
         labels[l] = "capacity-sweep"
     lines += sw
-    hist = history_lines(rng, tier) + page_history_lines(rng, tier)
+    hist = history_lines(rng, tier) + page_history_lines(rng, tier) + CL.big_lines(tier, codecs=("snappy", "lz4", "gzip", "zstd"))
     ext = gen_ext_lines(rng, tier)
     allc = lines + ext
     impl, deaths = CL.run_all(vlib, drv, allc, timeout=2400, max_deaths=40)
@@ -308,7 +308,7 @@ def run(tier):
         if out == "FAULT died":
             continue
         rep.count(line[:4000])
-        for b in (judge_pages if line.startswith("pages ") else judge_hist)(line, out):
+        for b in (CL.judge_big(line, out)[0] if line.startswith("big ") else (judge_pages if line.startswith("pages ") else judge_hist)(line, out)):
             rep.violation(b, {"case": line if len(line) < 600000 else line[:600000], "impl": out[:300]})
         nh_ok += 1
     for case, rc, summ in deaths:
@@ -374,7 +374,7 @@ def replay(path):
         print(CL.san_summary(err))
     if rc != 0 or not out:
         return 1
-    bad = judge_hist(case, out[0]) if case.startswith("hist ") else judge_pages(case, out[0]) if case.startswith("pages ") else judge(case, out[0])[0]
+    bad = CL.judge_big(case, out[0])[0] if case.startswith("big ") else judge_hist(case, out[0]) if case.startswith("hist ") else judge_pages(case, out[0]) if case.startswith("pages ") else judge(case, out[0])[0]
     for b in bad:
         print("FAILS:", b)
     return 1 if bad else 0
